@@ -1358,14 +1358,27 @@ func (s *Sys[M, A, V, E]) CheckAlterations(r *verifmc.Run, v VDAF[M, A, V, E], i
 		"alterations": len(altList(inst, &params, light)), "example": "input@agg0/meas:elem0+1"}
 }
 
-// UnitInvalid: malicious-client reports and single-field alterations.
+// UnitInvalid: every single-field alteration of every protocol message of valid reports (exported API only).
 func (s *Sys[M, A, V, E]) UnitInvalid(r *verifmc.Run, t interface{ Fatalf(string, ...interface{}) }, plan InvalidPlan) {
-	r.Rule("two families. (1) malicious client: an encoded measurement (field vector) is proved with the real Prove and shared with the real sharding code; " +
+	r.Rule("every single-field alteration (each field element +1,-1,+2,=p; each bit of every seed/blind/joint-rand part/nonce; length -1/+1 byte; shares swapped) of every protocol message " +
+		"(input shares, public share, nonce, prep shares, prep message) of a valid report, delivered to one or all aggregators, must be refused by every consumer, after which the same instance must prepare the unaltered report identically; " +
+		"non-trivial = each distinct (instance, aggregators, seed, measurement, alteration)")
+	s.unitInvalid(r, t, plan, false, true)
+	r.RequireCounter("altered_reports_rejected", 1)
+}
+
+// UnitMalicious: the malicious-client flow (needs MakeEvil, i.e. the package's unexported FLP type).
+func (s *Sys[M, A, V, E]) UnitMalicious(r *verifmc.Run, t interface{ Fatalf(string, ...interface{}) }, plan InvalidPlan) {
+	r.Rule("malicious client: an encoded measurement (field vector) is proved with the real Prove and shared with the real sharding code (only Encode of the package's FLP replaced); " +
 		"vectors = complete product {0,1,2,p-1}^MEAS_LEN when it has <= product_cap members, plus every vector within one deviation (9-value alphabet) and two deviations " +
-		"({0,1,2,p-1}) of a valid encoding; members of the reference valid set must be accepted with byte-identical shares to the honest client and the right contribution, all others refused. " +
-		"(2) every single-field alteration (each field element +1,-1,+2,=p; each bit of every seed/blind/joint-rand part/nonce; length -1/+1 byte; shares swapped) of every protocol message " +
-		"(input shares, public share, nonce, prep shares, prep message) of a valid report, delivered to one or all aggregators, must be refused by every consumer, after which the same instance must prepare the unaltered report identically. " +
-		"non-trivial = each distinct (instance, aggregators, seed, vector) or (instance, aggregators, seed, measurement, alteration)")
+		"({0,1,2,p-1}) of a valid encoding; members of the reference valid set must be accepted with byte-identical shares to the honest client and the right contribution, all others refused; " +
+		"non-trivial = each distinct (instance, aggregators, seed, vector)")
+	s.unitInvalid(r, t, plan, true, false)
+	r.RequireCounter("invalid_measurements_rejected", 1)
+	r.RequireCounter("valid_measurements_accepted", 1)
+}
+
+func (s *Sys[M, A, V, E]) unitInvalid(r *verifmc.Run, t interface{ Fatalf(string, ...interface{}) }, plan InvalidPlan, doEvil, doAlt bool) {
 	s.checkOrder(t, plan.Insts[0])
 	nSeeds := plan.Seeds
 	if n := NumSeeds(r.Seed()); nSeeds > n || r.Seed() != 0 {
@@ -1393,7 +1406,7 @@ func (s *Sys[M, A, V, E]) UnitInvalid(r *verifmc.Run, t interface{ Fatalf(string
 		dom, _ := inst.Domain(8)
 		_, small := inst.ValidEncodedSet(plan.SetLimit)
 		info[inst.String()] = map[string]interface{}{"meas_len": inst.MeasLen(), "malicious_client_flow": small, "alterations_light": isLight(inst)}
-		if isLight(inst) {
+		if isLight(inst) && doAlt {
 			r.NotExhaustive(fmt.Sprintf("%s: bit flips of 32-byte seeds restricted to every bit of the first and last byte and bit 0 of the other bytes", inst))
 		}
 		for _, sh := range plan.Shares {
@@ -1402,17 +1415,20 @@ func (s *Sys[M, A, V, E]) UnitInvalid(r *verifmc.Run, t interface{ Fatalf(string
 				ns = 2 // more than three aggregators: first two seed-alphabet entries only (cost)
 			}
 			light := isLight(inst)
-			if sh > 9 && !light {
+			if sh > 9 && !light && doAlt {
 				light = true
 				r.NotExhaustive(fmt.Sprintf("%d aggregators: bit flips of 32-byte seeds restricted to every bit of the first and last byte and bit 0 of the other bytes", sh))
 			}
 			for si := 0; si < ns; si++ {
-				if small {
+				if small && doEvil {
 					jobs = append(jobs, job{inst: inst, shares: sh, seedIdx: si, kind: 0})
 				}
 				bases := [][]uint64{dom[0], dom[len(dom)-1]}
 				if len(dom) == 1 {
 					bases = bases[:1]
+				}
+				if !doAlt {
+					bases = nil
 				}
 				for _, m := range bases {
 					jobs = append(jobs, job{inst: inst, shares: sh, seedIdx: si, kind: 1, meas: m, light: light})
@@ -1470,7 +1486,6 @@ func (s *Sys[M, A, V, E]) UnitInvalid(r *verifmc.Run, t interface{ Fatalf(string
 			r.Sample(samples[k])
 		}
 	}
-	r.RequireCounter("altered_reports_rejected", 1)
 }
 
 // UnitCtor: the constructor table.
